@@ -21,6 +21,7 @@ EXTENDS Naturals, Sequences, FiniteSets, TLC
 
 Kinds == {"int", "intList", "tokens", "tokenLists", "model", "modelList", "modelUnion", "anyType", "wildcardList",
           "attributes", "primUnion", "compound", "enum", "nillableInt", "requiredInt", "attrInt", "wildcardOne", "qname",
+          "enumTokens",             \* an enumeration of xs:list values (members 5 6 and 5 6 7)
           "modelAndWildcard"}       \* x is a typed complex child, NEXT TO a (non-mixed) wildcard field of the same class
 
 Shapes == {"absent", "empty", "ws", "int", "str", "enumStr", "ints", "twice", "nil", "nilText", "nilBad", "leaf", "leafTwice",
@@ -58,6 +59,7 @@ Canonical(k, s) ==
     [] k = "attrInt"      -> s \in {"absent", "parentAttr"}
     [] k = "qname"        -> s \in {"absent", "str", "enumStr"}
     [] k = "modelAndWildcard" -> s \in {"absent", "empty", "leaf"}
+    [] k = "enumTokens"   -> s \in {"absent", "ints"}
 
 \* a shape that adds, next to canonical content `int`, something NO content model of the universe knows:
 \* an element <zz> beside x (sibling).  Kinds that absorb anything (wildcards) are exempt.
@@ -70,6 +72,7 @@ Unconvertible(k, s) ==
   CASE k \in {"int", "nillableInt", "requiredInt", "intList"} -> s \in {"str", "enumStr", "ints"}
     [] k \in {"tokens", "tokenLists"}                          -> s \in {"str", "enumStr", "mixedTokens"}
     [] k = "enum"                                               -> s \in {"str", "int", "ints"}
+    [] k = "enumTokens"                                         -> s \in {"str", "int", "mixedTokens"}     \* ("int" is a proper PREFIX of a member)
     [] k = "attrInt"                                            -> s \in {"parentAttrBad"}
     \* the declared type is anyType / a wildcard, the ANNOUNCED type (xsi:type) is what the text cannot be converted to
     [] k \in {"anyType", "wildcardList", "wildcardOne"}          -> s \in {"xsiHexBad", "xsiIntBad"}
